@@ -2,10 +2,12 @@ import PV.Model.ShmBuffer
 import PV.Spec.Queue
 import PV.Driver.Util
 /-! driver for the shared-memory buffer family (C08).
-    ops:  new H SIZE | own H | close H | w H HEX | wz H LEN | r H LEN | clr H | used H | free H | pos | reset
+    ops:  new H SIZE | own H | close H | abandon H | w H HEX | wz H LEN | r H LEN | clr H | used H | free H | pos | reset
     `own H` = p_shm_buffer_take_ownership; the creating handle is an owner from the start.  `close H` of an owner
     removes the name, so the protocol allows it only when H is the last open handle (the next `new` then creates a
     fresh buffer of the newly requested capacity); `close` of a non-owner is a plain free.
+    `abandon H`: the holder of H disappears without freeing it (what a killed process leaves): the documented
+    clean-up is `own` + `close` through another handle.
     `wz H LEN` writes LEN zero bytes (LEN up to 2^64 − 1, never materialised when it cannot fit). -/
 namespace PV.Driver.SB
 open PV.SB
@@ -54,6 +56,13 @@ def step (s : St) (toks : List String) : IO (St × Bool) := do
         -- the last handle, an owner: segment, lock and name are gone
         IO.println "ok"; return ({}, false)
       IO.println "ok"; return ({ s with hs := s.hs.filter (·.1 ≠ h) }, false)
+    | none => IO.println "bad-op"; return (s, false)
+  | ["abandon", h] =>
+    -- the holder is gone without freeing (a killed process): the handle no longer counts, nothing else changes
+    match h.toNat? with
+    | some h =>
+      if (modulusOf s h).isNone then IO.println "bad-op"; return (s, false)
+      IO.println "ok"; return ({ s with hs := s.hs.filter (·.1 ≠ h), owners := s.owners.filter (· ≠ h) }, false)
     | none => IO.println "bad-op"; return (s, false)
   | ["own", h] =>
     match h.toNat? with
